@@ -78,6 +78,65 @@ func incomplete(env *lat.Env) func(lat.Ty, lat.Val) bool {
 	}
 }
 
+// emptyKeyCulprit: the smallest sub-value of x that is not an instance of its own detailed type is a hash keyed by strings
+// only with the empty string among them (exactly the class excluded by theorem C04_dtype, hypothesis NoEmptyKey: its
+// detailed type is a commonType fold over the detailed Struct / Hash types of its entries) and that type holds a Struct
+// (commonType picked it through the exempt Struct-from-Hash rule)
+func emptyKeyCulprit(env *lat.Env, x lat.Val) bool {
+	bad := func(y lat.Val) bool {
+		v, err := env.BuildVal(y)
+		if err != nil {
+			return false
+		}
+		r := false
+		lat.Safely(func() { r = !px.IsInstance(px.DetailedValueType(v), v) })
+		return r
+	}
+	for depth := 0; depth < 32; depth++ {
+		var kids []lat.Val
+		kids = append(kids, x.Vs...)
+		for _, e := range x.Es {
+			kids = append(kids, e.K, e.V)
+		}
+		found := false
+		for _, k := range kids {
+			if bad(k) {
+				x, found = k, true
+				break
+			}
+		}
+		if !found {
+			break
+		}
+	}
+	if x.K != "h" || len(x.Es) == 0 {
+		return false
+	}
+	empty := false
+	for _, e := range x.Es {
+		if e.K.K != "s" {
+			return false
+		}
+		if e.K.S == "" {
+			empty = true
+		}
+	}
+	if !empty {
+		return false
+	}
+	v, err := env.BuildVal(x)
+	if err != nil {
+		return false
+	}
+	var dt px.Type
+	lat.Safely(func() { dt = px.DetailedValueType(v) })
+	if dt == nil {
+		return false
+	}
+	enc, err := lat.EncTy(dt)
+	return err == nil && lat.ContainsK(enc, "struct")
+}
+
 func exec(c px.Context, op string, args []sx.Sexp) core.Result {
 	if res, ok := lat.ExecTier2(c, op, args); ok {
 		return res
@@ -103,7 +162,11 @@ func exec(c px.Context, op string, args []sx.Sexp) core.Result {
 			return r.Result("FAIL panic IsInstance of the inferred type", true)
 		}
 		if !ok {
-			return r.Result("FAIL "+op+"-not-inst the value is not an instance of its inferred type "+r.Out, true)
+			class := op + "-not-inst"
+			if op == "dtype" && emptyKeyCulprit(r.Env, v) {
+				class = "dtype-not-inst-emptykey-sfh"
+			}
+			return r.Result("FAIL "+class+" the value is not an instance of its inferred type "+r.Out, true)
 		}
 		return r.Result("ok", nt)
 	case "common":
@@ -114,6 +177,13 @@ func exec(c px.Context, op string, args []sx.Sexp) core.Result {
 			return r.Result("FAIL panic assignability of the common type", true)
 		}
 		if !ca || !cb {
+			stringy := func(t lat.Ty) bool {
+				return lat.ContainsK(t, "struct") || lat.ContainsK(t, "enum") || lat.ContainsK(t, "pat")
+			}
+			if lat.ContainsK(r.Res, "iter") && (stringy(a.Ty) || stringy(b.Ty)) {
+				// Iterable has no rule for Struct / Enum / Pattern (known finding C03-trans-iterable) seen through commonType
+				return r.Result("FAIL common-not-bound-iterable the common type "+r.Out+" accepts its arguments: "+sx.B(ca)+" "+sx.B(cb), true)
+			}
 			return r.Result("FAIL common-not-bound-"+lat.Head(a.Ty)+"-"+lat.Head(b.Ty)+" the common type "+r.Out+" accepts its arguments: "+sx.B(ca)+" "+sx.B(cb), true)
 		}
 		return r.Result("ok", !lat.Nullary(a.Ty) || !lat.Nullary(b.Ty))
